@@ -155,6 +155,10 @@ def run(ctx):
               for d in tfam for s in ('Simulation', 'FastSimulation', 'CompiledSimulation')
               for ar in ((True,) if ctx.tier == 'quick' else (True, False))
               for (im, dv) in ((1, 0), (2, 1), (0, 0), (3, 0))]
+    # traces of simulations of the synthesized copy, memories initialised through the original MemBlocks
+    ttasks += [dict(design=d, simname=s, seed=ctx.seed, add_reset=True, init_mode=im, default_value=0, synth=True)
+               for d in tfam if d['name'] in ('mem_rw', 'mem_sync', 'mem_two_writes', 'mem_feeds_logic', 'counter')
+               for s in ('Simulation', 'FastSimulation', 'CompiledSimulation') for im in (1, 3)]
     tres = passcheck.pmap(_tb, ttasks)
     first = {}
     for t, r in zip(ttasks, tres):
